@@ -11,7 +11,7 @@
 //!  * a call log (cross-checked against strace by the crash lab) and a fake `CLOCK_REALTIME`.
 
 use std::cell::Cell;
-use std::collections::BTreeSet;
+use std::collections::BTreeMap;
 use std::ffi::CStr;
 use std::os::raw::{c_char, c_int};
 use std::path::{Path, PathBuf};
@@ -25,7 +25,9 @@ pub struct Vfs {
     pub snaps: u64,
     pub log: Vec<String>,
     pub log_on: bool,
-    pub fds: BTreeSet<c_int>,
+    /// fds opened under the root -> absolute path they were opened with (attribution of fd-based
+    /// writes, and resolution of `*at(dirfd, relative)` calls such as std's remove_dir_all)
+    pub fds: BTreeMap<c_int, Vec<u8>>,
     /// fail the k-th (0-based) mutating call under the root with EIO (fault injection), if set
     pub fail_at: Option<u64>,
     pub mutating_seen: u64,
@@ -38,7 +40,7 @@ pub static VFS: Mutex<Vfs> = Mutex::new(Vfs {
     snaps: 0,
     log: Vec::new(),
     log_on: false,
-    fds: BTreeSet::new(),
+    fds: BTreeMap::new(),
     fail_at: None,
     mutating_seen: 0,
 });
@@ -178,12 +180,67 @@ pub unsafe fn pre(name: &'static str, p1: *const c_char, p2: *const c_char, muta
     Pre::Proceed
 }
 
-unsafe fn mutating_effect(name: &'static str, p1: *const c_char, p2: *const c_char) -> Pre {
-    let mut v = VFS.lock().unwrap();
+/// Cheap fingerprint of the tree (names, kinds, lengths, mtimes) used to detect that another
+/// thread changed the tree while a snapshot was being copied.
+fn tree_stamp(root: &Path) -> Vec<(String, bool, u64, i128)> {
+    fn rec(root: &Path, p: &Path, out: &mut Vec<(String, bool, u64, i128)>) {
+        let Ok(rd) = std::fs::read_dir(p) else { return };
+        for e in rd.flatten() {
+            let path = e.path();
+            let rel = path.strip_prefix(root).map(|r| r.to_string_lossy().to_string()).unwrap_or_default();
+            let Ok(md) = std::fs::symlink_metadata(&path) else {
+                out.push((rel, false, u64::MAX, -1));
+                continue;
+            };
+            let mt = md
+                .modified()
+                .ok()
+                .and_then(|t| t.duration_since(std::time::UNIX_EPOCH).ok())
+                .map(|d| d.as_nanos() as i128)
+                .unwrap_or(0);
+            if md.is_dir() {
+                out.push((rel, true, 0, 0));
+                rec(root, &path, out);
+            } else {
+                out.push((rel, false, md.len(), mt));
+            }
+        }
+    }
+    let mut out = vec![];
+    rec(root, root, &mut out);
+    out.sort();
+    out
+}
+
+/// Copies the watched tree to `dst`.  Other threads of the subject may be inside file-system
+/// calls of their own: the copy is repeated until the tree's stamp is the same before and after
+/// it, so every snapshot is a state the tree really had between two system calls.
+fn snapshot(root: &Path, dst: &Path) {
+    for attempt in 0..50 {
+        let before = tree_stamp(root);
+        if attempt > 0 {
+            let _ = crate::util::make_writable(dst);
+            let _ = std::fs::remove_dir_all(dst);
+        }
+        let ok = crate::util::copy_tree(root, dst).is_ok();
+        let after = tree_stamp(root);
+        if ok && before == after {
+            return;
+        }
+        SNAP_RETRIES.fetch_add(1, Ordering::Relaxed);
+    }
+    SNAP_UNSTABLE.fetch_add(1, Ordering::Relaxed);
+}
+/// number of snapshot copies that had to be repeated / that never became stable (a lab must treat
+/// the latter as a machinery error)
+pub static SNAP_RETRIES: AtomicU64 = AtomicU64::new(0);
+pub static SNAP_UNSTABLE: AtomicU64 = AtomicU64::new(0);
+
+/// One mutating effect under the root is about to happen: count it, log it, snapshot the tree.
+fn effect(mut v: std::sync::MutexGuard<'static, Vfs>, line: String) -> Pre {
     let k = v.mutating_seen;
     v.mutating_seen += 1;
     if v.log_on {
-        let line = if p2.is_null() { format!("{name} {}", rel(&v, p1)) } else { format!("{name} {} -> {}", rel(&v, p1), rel(&v, p2)) };
         v.log.push(line);
     }
     if let (Some(sd), Some(root)) = (v.snap_dir.clone(), v.root.clone()) {
@@ -192,7 +249,11 @@ unsafe fn mutating_effect(name: &'static str, p1: *const c_char, p2: *const c_ch
         drop(v);
         let root = PathBuf::from(String::from_utf8_lossy(&root).to_string());
         let dst = sd.join(format!("{n}"));
-        let _ = crate::util::copy_tree(&root, &dst);
+        {
+            // snapshots of concurrent effects are taken one at a time
+            let _one = SNAP_LOCK.lock().unwrap_or_else(|e| e.into_inner());
+            snapshot(&root, &dst);
+        }
         v = VFS.lock().unwrap();
     }
     if v.fail_at == Some(k) {
@@ -200,35 +261,51 @@ unsafe fn mutating_effect(name: &'static str, p1: *const c_char, p2: *const c_ch
     }
     Pre::Proceed
 }
+static SNAP_LOCK: Mutex<()> = Mutex::new(());
 
-/// fd-based mutating calls (write, pwrite, writev, ftruncate, fchmod) on fds opened under the root.
+unsafe fn mutating_effect(name: &'static str, p1: *const c_char, p2: *const c_char) -> Pre {
+    let v = VFS.lock().unwrap();
+    let line = if p2.is_null() {
+        format!("{name} {}", rel(&v, p1))
+    } else if p1.is_null() {
+        format!("{name} {}", rel(&v, p2))
+    } else {
+        format!("{name} {} -> {}", rel(&v, p1), rel(&v, p2))
+    };
+    effect(v, line)
+}
+
+/// fd-based mutating calls (write, pwrite, writev, ftruncate, fchmod, fchown, fallocate) on fds opened under the root.
 pub unsafe fn pre_fd(name: &'static str, fd: c_int, len: usize) -> Pre {
     if !ACTIVE.load(Ordering::Relaxed) || in_hook() {
         return Pre::Proceed;
     }
     let _g = HookGuard::enter();
-    let mut v = VFS.lock().unwrap();
-    if !v.fds.contains(&fd) {
+    let v = VFS.lock().unwrap();
+    let Some(path) = v.fds.get(&fd) else {
         return Pre::Proceed;
+    };
+    let r = v.root.as_ref().map(|r| r.len()).unwrap_or(0);
+    let line = format!("{name} {} len={len}", String::from_utf8_lossy(&path[r.min(path.len())..]));
+    effect(v, line)
+}
+
+/// `*at(dirfd, relative path)`: the absolute path, when `dirfd` is a directory opened under the
+/// root (std's remove_dir_all walks the tree this way).  None: use the path as given.
+pub unsafe fn at_path(dirfd: c_int, p: *const c_char) -> Option<std::ffi::CString> {
+    if p.is_null() || *p == b'/' as c_char || dirfd < 0 || !ACTIVE.load(Ordering::Relaxed) || in_hook() {
+        return None;
     }
-    let k = v.mutating_seen;
-    v.mutating_seen += 1;
-    if v.log_on {
-        v.log.push(format!("{name} fd len={len}"));
+    let _g = HookGuard::enter();
+    let v = VFS.lock().unwrap();
+    let base = v.fds.get(&dirfd)?;
+    let mut full = base.clone();
+    let tail = CStr::from_ptr(p).to_bytes();
+    if !tail.is_empty() && tail != b"." {
+        full.push(b'/');
+        full.extend_from_slice(tail);
     }
-    if let (Some(sd), Some(root)) = (v.snap_dir.clone(), v.root.clone()) {
-        let n = v.snaps;
-        v.snaps += 1;
-        drop(v);
-        let root = PathBuf::from(String::from_utf8_lossy(&root).to_string());
-        let dst = sd.join(format!("{n}"));
-        let _ = crate::util::copy_tree(&root, &dst);
-        v = VFS.lock().unwrap();
-    }
-    if v.fail_at == Some(k) {
-        return Pre::FailEio;
-    }
-    Pre::Proceed
+    std::ffi::CString::new(full).ok()
 }
 
 /// Record fds opened under the root so that fd-based writes can be attributed.
@@ -239,7 +316,9 @@ pub unsafe fn post_open(path: *const c_char, fd: c_int) {
     let _g = HookGuard::enter();
     let mut v = VFS.lock().unwrap();
     if under_root(&v, path) {
-        v.fds.insert(fd);
+        v.fds.insert(fd, CStr::from_ptr(path).to_bytes().to_vec());
+    } else {
+        v.fds.remove(&fd);
     }
 }
 pub unsafe fn post_close(fd: c_int) {
@@ -269,7 +348,7 @@ macro_rules! interpose {
             use std::sync::atomic::{AtomicUsize, Ordering};
 
             use libc::{mode_t, off64_t, size_t, ssize_t};
-            use $crate::vfs::{post_close, post_open, pre, pre_fd, real, Pre};
+            use $crate::vfs::{at_path, post_close, post_open, pre, pre_fd, real, Pre};
 
             macro_rules! realfn {
                 ($name:literal, $ty:ty) => {{
@@ -312,22 +391,26 @@ macro_rules! interpose {
             }
             #[no_mangle]
             pub unsafe extern "C" fn openat(dirfd: c_int, path: *const c_char, flags: c_int, mode: mode_t) -> c_int {
-                if let Pre::FailEio = pre("open", path, std::ptr::null(), open_mutates(flags)) {
+                let abs = at_path(dirfd, path);
+                let ap = abs.as_ref().map(|c| c.as_ptr()).unwrap_or(path);
+                if let Pre::FailEio = pre("open", ap, std::ptr::null(), open_mutates(flags)) {
                     return eio();
                 }
                 let f = realfn!("openat", unsafe extern "C" fn(c_int, *const c_char, c_int, mode_t) -> c_int);
                 let fd = f(dirfd, path, flags, mode);
-                post_open(path, fd);
+                post_open(ap, fd);
                 fd
             }
             #[no_mangle]
             pub unsafe extern "C" fn openat64(dirfd: c_int, path: *const c_char, flags: c_int, mode: mode_t) -> c_int {
-                if let Pre::FailEio = pre("open", path, std::ptr::null(), open_mutates(flags)) {
+                let abs = at_path(dirfd, path);
+                let ap = abs.as_ref().map(|c| c.as_ptr()).unwrap_or(path);
+                if let Pre::FailEio = pre("open", ap, std::ptr::null(), open_mutates(flags)) {
                     return eio();
                 }
                 let f = realfn!("openat64", unsafe extern "C" fn(c_int, *const c_char, c_int, mode_t) -> c_int);
                 let fd = f(dirfd, path, flags, mode);
-                post_open(path, fd);
+                post_open(ap, fd);
                 fd
             }
             #[no_mangle]
@@ -346,7 +429,9 @@ macro_rules! interpose {
             }
             #[no_mangle]
             pub unsafe extern "C" fn renameat(ad: c_int, a: *const c_char, bd: c_int, b: *const c_char) -> c_int {
-                if let Pre::FailEio = pre("rename", a, b, true) {
+                let (xa, xb) = (at_path(ad, a), at_path(bd, b));
+                let (pa, pb) = (xa.as_ref().map(|c| c.as_ptr()).unwrap_or(a), xb.as_ref().map(|c| c.as_ptr()).unwrap_or(b));
+                if let Pre::FailEio = pre("rename", pa, pb, true) {
                     return eio();
                 }
                 let f = realfn!("renameat", unsafe extern "C" fn(c_int, *const c_char, c_int, *const c_char) -> c_int);
@@ -354,7 +439,9 @@ macro_rules! interpose {
             }
             #[no_mangle]
             pub unsafe extern "C" fn renameat2(ad: c_int, a: *const c_char, bd: c_int, b: *const c_char, fl: c_uint) -> c_int {
-                if let Pre::FailEio = pre("rename", a, b, true) {
+                let (xa, xb) = (at_path(ad, a), at_path(bd, b));
+                let (pa, pb) = (xa.as_ref().map(|c| c.as_ptr()).unwrap_or(a), xb.as_ref().map(|c| c.as_ptr()).unwrap_or(b));
+                if let Pre::FailEio = pre("rename", pa, pb, true) {
                     return eio();
                 }
                 let f = realfn!("renameat2", unsafe extern "C" fn(c_int, *const c_char, c_int, *const c_char, c_uint) -> c_int);
@@ -370,7 +457,9 @@ macro_rules! interpose {
             }
             #[no_mangle]
             pub unsafe extern "C" fn linkat(ad: c_int, a: *const c_char, bd: c_int, b: *const c_char, fl: c_int) -> c_int {
-                if let Pre::FailEio = pre("link", a, b, true) {
+                let (xa, xb) = (at_path(ad, a), at_path(bd, b));
+                let (pa, pb) = (xa.as_ref().map(|c| c.as_ptr()).unwrap_or(a), xb.as_ref().map(|c| c.as_ptr()).unwrap_or(b));
+                if let Pre::FailEio = pre("link", pa, pb, true) {
                     return eio();
                 }
                 let f = realfn!("linkat", unsafe extern "C" fn(c_int, *const c_char, c_int, *const c_char, c_int) -> c_int);
@@ -394,7 +483,11 @@ macro_rules! interpose {
             }
             #[no_mangle]
             pub unsafe extern "C" fn unlinkat(d: c_int, a: *const c_char, fl: c_int) -> c_int {
-                if let Pre::FailEio = pre("unlink", a, std::ptr::null(), true) {
+                let xa = at_path(d, a);
+                let pa = xa.as_ref().map(|c| c.as_ptr()).unwrap_or(a);
+                // AT_REMOVEDIR: this is rmdir
+                let nm = if fl & libc::AT_REMOVEDIR != 0 { "rmdir" } else { "unlink" };
+                if let Pre::FailEio = pre(nm, pa, std::ptr::null(), true) {
                     return eio();
                 }
                 let f = realfn!("unlinkat", unsafe extern "C" fn(c_int, *const c_char, c_int) -> c_int);
@@ -506,6 +599,155 @@ macro_rules! interpose {
                     unsafe extern "C" fn(c_int, *mut off64_t, c_int, *mut off64_t, size_t, c_uint) -> ssize_t
                 );
                 f(fi, oi, fo, oo, n, fl)
+            }
+            #[no_mangle]
+            pub unsafe extern "C" fn creat(path: *const c_char, mode: mode_t) -> c_int {
+                if let Pre::FailEio = pre("open", path, std::ptr::null(), true) {
+                    return eio();
+                }
+                let f = realfn!("creat", unsafe extern "C" fn(*const c_char, mode_t) -> c_int);
+                let fd = f(path, mode);
+                post_open(path, fd);
+                fd
+            }
+            #[no_mangle]
+            pub unsafe extern "C" fn creat64(path: *const c_char, mode: mode_t) -> c_int {
+                if let Pre::FailEio = pre("open", path, std::ptr::null(), true) {
+                    return eio();
+                }
+                let f = realfn!("creat64", unsafe extern "C" fn(*const c_char, mode_t) -> c_int);
+                let fd = f(path, mode);
+                post_open(path, fd);
+                fd
+            }
+            #[no_mangle]
+            pub unsafe extern "C" fn mkdirat(d: c_int, a: *const c_char, m: mode_t) -> c_int {
+                let xa = at_path(d, a);
+                let pa = xa.as_ref().map(|c| c.as_ptr()).unwrap_or(a);
+                if let Pre::FailEio = pre("mkdir", pa, std::ptr::null(), true) {
+                    return eio();
+                }
+                let f = realfn!("mkdirat", unsafe extern "C" fn(c_int, *const c_char, mode_t) -> c_int);
+                f(d, a, m)
+            }
+            #[no_mangle]
+            pub unsafe extern "C" fn symlinkat(a: *const c_char, d: c_int, b: *const c_char) -> c_int {
+                let xb = at_path(d, b);
+                let pb = xb.as_ref().map(|c| c.as_ptr()).unwrap_or(b);
+                if let Pre::FailEio = pre("symlink", std::ptr::null(), pb, true) {
+                    return eio();
+                }
+                let f = realfn!("symlinkat", unsafe extern "C" fn(*const c_char, c_int, *const c_char) -> c_int);
+                f(a, d, b)
+            }
+            #[no_mangle]
+            pub unsafe extern "C" fn fchmodat(d: c_int, a: *const c_char, m: mode_t, fl: c_int) -> c_int {
+                let xa = at_path(d, a);
+                let pa = xa.as_ref().map(|c| c.as_ptr()).unwrap_or(a);
+                if let Pre::FailEio = pre("chmod", pa, std::ptr::null(), true) {
+                    return eio();
+                }
+                let f = realfn!("fchmodat", unsafe extern "C" fn(c_int, *const c_char, mode_t, c_int) -> c_int);
+                f(d, a, m, fl)
+            }
+            #[no_mangle]
+            pub unsafe extern "C" fn chown(a: *const c_char, u: libc::uid_t, g: libc::gid_t) -> c_int {
+                if let Pre::FailEio = pre("chown", a, std::ptr::null(), true) {
+                    return eio();
+                }
+                let f = realfn!("chown", unsafe extern "C" fn(*const c_char, libc::uid_t, libc::gid_t) -> c_int);
+                f(a, u, g)
+            }
+            #[no_mangle]
+            pub unsafe extern "C" fn lchown(a: *const c_char, u: libc::uid_t, g: libc::gid_t) -> c_int {
+                if let Pre::FailEio = pre("chown", a, std::ptr::null(), true) {
+                    return eio();
+                }
+                let f = realfn!("lchown", unsafe extern "C" fn(*const c_char, libc::uid_t, libc::gid_t) -> c_int);
+                f(a, u, g)
+            }
+            #[no_mangle]
+            pub unsafe extern "C" fn fchownat(d: c_int, a: *const c_char, u: libc::uid_t, g: libc::gid_t, fl: c_int) -> c_int {
+                let xa = at_path(d, a);
+                let pa = xa.as_ref().map(|c| c.as_ptr()).unwrap_or(a);
+                if let Pre::FailEio = pre("chown", pa, std::ptr::null(), true) {
+                    return eio();
+                }
+                let f = realfn!("fchownat", unsafe extern "C" fn(c_int, *const c_char, libc::uid_t, libc::gid_t, c_int) -> c_int);
+                f(d, a, u, g, fl)
+            }
+            #[no_mangle]
+            pub unsafe extern "C" fn fchown(fd: c_int, u: libc::uid_t, g: libc::gid_t) -> c_int {
+                if let Pre::FailEio = pre_fd("fchown", fd, 0) {
+                    return eio();
+                }
+                let f = realfn!("fchown", unsafe extern "C" fn(c_int, libc::uid_t, libc::gid_t) -> c_int);
+                f(fd, u, g)
+            }
+            #[no_mangle]
+            pub unsafe extern "C" fn truncate(a: *const c_char, len: libc::off_t) -> c_int {
+                if let Pre::FailEio = pre("truncate", a, std::ptr::null(), true) {
+                    return eio();
+                }
+                let f = realfn!("truncate", unsafe extern "C" fn(*const c_char, libc::off_t) -> c_int);
+                f(a, len)
+            }
+            #[no_mangle]
+            pub unsafe extern "C" fn truncate64(a: *const c_char, len: off64_t) -> c_int {
+                if let Pre::FailEio = pre("truncate", a, std::ptr::null(), true) {
+                    return eio();
+                }
+                let f = realfn!("truncate64", unsafe extern "C" fn(*const c_char, off64_t) -> c_int);
+                f(a, len)
+            }
+            // the non-LFS names are what statically linked C code (LMDB) calls on x86_64
+            #[no_mangle]
+            pub unsafe extern "C" fn ftruncate(fd: c_int, len: libc::off_t) -> c_int {
+                if let Pre::FailEio = pre_fd("ftruncate", fd, len as usize) {
+                    return eio();
+                }
+                let f = realfn!("ftruncate", unsafe extern "C" fn(c_int, libc::off_t) -> c_int);
+                f(fd, len)
+            }
+            #[no_mangle]
+            pub unsafe extern "C" fn pwrite(fd: c_int, b: *const c_void, n: size_t, o: libc::off_t) -> ssize_t {
+                if let Pre::FailEio = pre_fd("pwrite", fd, n) {
+                    return eio() as ssize_t;
+                }
+                let f = realfn!("pwrite", unsafe extern "C" fn(c_int, *const c_void, size_t, libc::off_t) -> ssize_t);
+                f(fd, b, n, o)
+            }
+            #[no_mangle]
+            pub unsafe extern "C" fn pwritev(fd: c_int, iov: *const libc::iovec, cnt: c_int, o: libc::off_t) -> ssize_t {
+                if let Pre::FailEio = pre_fd("pwritev", fd, cnt as usize) {
+                    return eio() as ssize_t;
+                }
+                let f = realfn!("pwritev", unsafe extern "C" fn(c_int, *const libc::iovec, c_int, libc::off_t) -> ssize_t);
+                f(fd, iov, cnt, o)
+            }
+            #[no_mangle]
+            pub unsafe extern "C" fn pwritev64(fd: c_int, iov: *const libc::iovec, cnt: c_int, o: off64_t) -> ssize_t {
+                if let Pre::FailEio = pre_fd("pwritev", fd, cnt as usize) {
+                    return eio() as ssize_t;
+                }
+                let f = realfn!("pwritev64", unsafe extern "C" fn(c_int, *const libc::iovec, c_int, off64_t) -> ssize_t);
+                f(fd, iov, cnt, o)
+            }
+            #[no_mangle]
+            pub unsafe extern "C" fn fallocate(fd: c_int, mode: c_int, o: libc::off_t, len: libc::off_t) -> c_int {
+                if let Pre::FailEio = pre_fd("fallocate", fd, len as usize) {
+                    return eio();
+                }
+                let f = realfn!("fallocate", unsafe extern "C" fn(c_int, c_int, libc::off_t, libc::off_t) -> c_int);
+                f(fd, mode, o, len)
+            }
+            #[no_mangle]
+            pub unsafe extern "C" fn posix_fallocate(fd: c_int, o: libc::off_t, len: libc::off_t) -> c_int {
+                if let Pre::FailEio = pre_fd("fallocate", fd, len as usize) {
+                    return libc::EIO;
+                }
+                let f = realfn!("posix_fallocate", unsafe extern "C" fn(c_int, libc::off_t, libc::off_t) -> c_int);
+                f(fd, o, len)
             }
             #[no_mangle]
             pub unsafe extern "C" fn clock_gettime(clk: libc::clockid_t, ts: *mut libc::timespec) -> c_int {
